@@ -832,6 +832,26 @@ pub fn run(opts: &Options) -> FilterRepoResult<()> {
             continue;
         }
 
+        // A bare `reset refs/tags/<name>` (no 'from') precedes a root commit on that ref:
+        // forward it, otherwise fast-import would continue the ref's previous history.
+        if let Some(ref_full) = pending_tag_reset.as_ref() {
+            if !line.starts_with(b"from ") {
+                let mut reset_line = Vec::with_capacity(7 + ref_full.len());
+                reset_line.extend_from_slice(b"reset ");
+                reset_line.extend_from_slice(ref_full);
+                reset_line.push(b'\n');
+                filt_file.write_all(&reset_line)?;
+                if let Some(ref mut fi_in) = fi_in_opt {
+                    if let Err(e) = fi_in.write_all(&reset_line) {
+                        if e.kind() == io::ErrorKind::BrokenPipe {
+                            import_broken = true;
+                        } else {
+                            return Err(e.into());
+                        }
+                    }
+                }
+            }
+        }
         // If a lightweight tag reset is pending, capture its 'from ' line
         if crate::tag::maybe_capture_pending_tag_reset(
             &mut pending_tag_reset,
